@@ -2,17 +2,18 @@
 # usage: confirm_seed.sh <Cxx> <A|B>   -- confirms a sub-agent's seeded change in a scratch worktree of /repo HEAD:
 #   patch applies, full test suite passes (both back ends), demo FAILs with it and PASSes without.
 set -u
+TOOLS=$(cd "$(dirname "$0")" && pwd)
 ID=$1; X=$2; SRC=${SEEDROOT:-/tmp/seed-out}/$ID/$X; WT=/tmp/wt-confirm-$ID$X
 [ -f $SRC/patch.diff ] || { echo "no patch"; exit 2; }
 git -C /repo worktree add -q --detach $WT HEAD || exit 2
 trap 'git -C /repo worktree remove --force $WT' EXIT
 cp /repo/yarl/_quoting_c.cpython-312-x86_64-linux-gnu.so $WT/yarl/ 2>/dev/null
-$(dirname "$0")/rebuild_ext.sh $WT >/dev/null || exit 2
+$TOOLS/rebuild_ext.sh $WT >/dev/null || exit 2
 cp $SRC/demo.py $WT/demo_seed.py
 cd $WT
 echo "== clean demo"; /venv/bin/python demo_seed.py >/tmp/confirm-$ID$X-clean.log 2>&1; C=$?; tail -2 /tmp/confirm-$ID$X-clean.log
 git apply $SRC/patch.diff || { echo "PATCH DOES NOT APPLY"; exit 3; }
-if git diff --name-only | grep -q pyx; then $(dirname "$0")/rebuild_ext.sh $WT >/dev/null || { echo "ext build failed"; exit 3; }; fi
+if git diff --name-only | grep -q pyx; then $TOOLS/rebuild_ext.sh $WT >/dev/null || { echo "ext build failed"; exit 3; }; fi
 echo "== tests (C)"; /venv/bin/python -m pytest -q -p no:cacheprovider -n 8 --no-cov 2>&1 | tail -1
 echo "== tests (py)"; YARL_NO_EXTENSIONS=1 /venv/bin/python -m pytest -q -p no:cacheprovider -n 8 --no-cov 2>&1 | tail -1
 echo "== mutant demo"; /venv/bin/python demo_seed.py >/tmp/confirm-$ID$X-mut.log 2>&1; M=$?; tail -3 /tmp/confirm-$ID$X-mut.log
